@@ -6,15 +6,19 @@ Wit(Q(_)) == \E r \in ReqSpace : Q(r)
 W1(r) == r.sg.a < r.sg.r
 W2(r) == r.fn = "self_sign" /\ ~HasSameDay(Now(r), 20)
 W3(r) == MsWidth(r.clock) = 4
-W4(r) == r.fn = "derive" /\ CivilFromDays(r.start.d).y < CivilFromDays(NotAfterInst(r).d).y
+W4(r) == r.fn = "derive" /\ CivilFromDays(r.start.d).y < CivilFromDays(AddSec(r.start, r.dur).d).y
 W5(r) == NumSize(Reserved(CertCfg(r)).len) # NumSize(Final(CertCfg(r)).len) \/ Reserved(CertCfg(r)).len >= 253
 W6(r) == r.fn = "derive" /\ r.tz # -1000 /\ r.tz # 0
+W12(r) == r.fn = "self_sign" /\ HasSameDay(Now(r), 20) /\ CivilFromDays(Now(r).d).m = 2 /\ CivilFromDays(Now(r).d).d = 29
+W13(r) == \E i \in 1..(Len(r.lit) - 3) : r.lit[i] = "KEY" /\ i = Len(r.lit) - 3
+W14(r) == \E i \in 1..(Len(r.lit) - 2) : r.lit[i] \in {"self", "cert-request"}
 W7(r) == r.fn = "new_cert" /\ r.tz = -1000 /\ r.tz2 \notin {-1000, 0}
 W8(r) == r.fn = "new_cert" /\ r.tz \notin {-1000, 0} /\ r.tz2 = -1000
 W9(r) == r.fn = "derive" /\ r.idform = "typed" /\ r.issuer.t # 8
 W10(r) == r.fn = "derive" /\ r.idform = "escaped" /\ r.issuer.t = 8
 W11(r) == r.fn = "derive" /\ r.idform = "short"
-ASSUME PrintT(<<"WITNESSES", [NaiveStartAwareEnd |-> Wit(W7), AwareStartNaiveEnd |-> Wit(W8), TypedTextId |-> Wit(W9),
+ASSUME PrintT(<<"WITNESSES", [LeapDayWithSameDay |-> Wit(W12), KeyInsideIdentity |-> Wit(W13), ReservedWordInIdentity |-> Wit(W14),
+                               NaiveStartAwareEnd |-> Wit(W7), AwareStartNaiveEnd |-> Wit(W8), TypedTextId |-> Wit(W9),
                                EscapedTextId |-> Wit(W10), ShorthandTextId |-> Wit(W11), Shrink |-> Wit(W1), LeapDayNoSameDay |-> Wit(W2), Version4 |-> Wit(W3),
                                YearBoundary |-> Wit(W4), LongOuter |-> Wit(W5), NonUtcZone |-> Wit(W6)],
                 "COUNT", Cardinality(ReqSpace)>>)
